@@ -1096,7 +1096,7 @@ func (g *gen) guard(c fctx, is *ast.IfStmt, only []string) string {
 	return fmt.Sprintf(".guard %s %s %s", qlist(only), g.cond(c, is.Cond), q(errName))
 }
 
-func (g *gen) steps(fn string) []string {
+func (g *gen) stepsN(fn string) ([]string, int) {
 	c := g.crypto.fnIn(fn, "symmetric.go")
 	st := c.stmts()
 	var out []string
@@ -1106,15 +1106,15 @@ func (g *gen) steps(fn string) []string {
 			// x, err := f(…)  followed by  if err != nil { return nil…, E }
 			if len(s.Lhs) < 1 || len(s.Rhs) != 1 || (s.Tok != token.DEFINE && s.Tok != token.ASSIGN) ||
 				!isIdent(s.Lhs[len(s.Lhs)-1], "err") || i+1 >= len(st) {
-				return out
+				return out, i
 			}
 			call, ok := s.Rhs[0].(*ast.CallExpr)
 			if !ok {
-				return out
+				return out, i
 			}
 			is, ok := st[i+1].(*ast.IfStmt)
 			if !ok || !isErrNeNil(is.Cond) {
-				return out
+				return out, i
 			}
 			if is.Init != nil || is.Else != nil || len(is.Body.List) != 1 {
 				failf(is.Pos(), "%s: unknown shape: error check after %s is not `if err != nil { return … }`", fn, show(call.Fun))
@@ -1143,13 +1143,13 @@ func (g *gen) steps(fn string) []string {
 		case *ast.IfStmt:
 			is, ok := guardLike(s)
 			if !ok {
-				return out
+				return out, i
 			}
 			out = append(out, g.guard(c, is, nil))
 		case *ast.SwitchStmt:
 			sw, ok := isSwitchOn(s, "algorithm")
 			if !ok {
-				return out
+				return out, i
 			}
 			cl := switchClauses(sw)
 			all := cl.cases
@@ -1165,7 +1165,7 @@ func (g *gen) steps(fn string) []string {
 				}
 			}
 			if !hasGuard {
-				return out
+				return out, i
 			}
 			if cl.dflt != nil || len(cl.cases) != 1 || len(cl.cases[0].Body) != 1 {
 				failf(sw.Pos(), "%s: unknown guard shape: `switch algorithm` containing a guard is not `switch algorithm { case names…: if c { return …, ErrX } }`", fn)
@@ -1173,10 +1173,22 @@ func (g *gen) steps(fn string) []string {
 			is, _ := guardLike(cl.cases[0].Body[0])
 			out = append(out, g.guard(c, is, g.algs(c, cl.cases[0].List)))
 		default:
-			return out
+			return out, i
 		}
 	}
+	return out, len(st)
+}
+
+func (g *gen) steps(fn string) []string {
+	out, _ := g.stepsN(fn)
 	return out
+}
+
+// bodyAfterSteps: every statement of the helper after its guard prefix, rendered flat.
+func (g *gen) bodyAfterSteps(fn string) []string {
+	_, i := g.stepsN(fn)
+	c := g.crypto.fnIn(fn, "symmetric.go")
+	return stmtsOneLine(c.stmts()[i:])
 }
 
 // ------------------------------------------------------------------ CBC padding switch, ChaCha tag split
@@ -1942,6 +1954,10 @@ func (g *gen) generate() string {
 	}
 	for _, fn := range stepFuncs {
 		g.emitMultiline(fmt.Sprintf("def steps_%s : List Step :=", fn), g.steps(fn))
+	}
+	g.pf("\n/-- What each helper does after its guard prefix, statement by statement (rendered source). -/\n")
+	for _, fn := range stepFuncs {
+		g.pf("def body_%s : List String := %s\n", fn, qlist(g.bodyAfterSteps(fn)))
 	}
 
 	g.pf("\n/-- Names for which the CBC helpers skip PKCS#7 (the `switch` whose `default` calls padding.*). -/\n")
